@@ -214,10 +214,14 @@ EXPORT int snwprintf_s(wchar_t *restrict dest, rsize_t dmax,
             va_end(ap2);
         } else {
             wchar_t *tmp = (wchar_t *)malloc(dmax * sizeof(wchar_t));
-            va_start(ap2, fmt);
-            ret = vswprintf(tmp, dmax, fmt, ap2);
-            va_end(ap2);
-            free(tmp);
+            if (tmp) {
+                va_start(ap2, fmt);
+                ret = vswprintf(tmp, dmax, fmt, ap2);
+                va_end(ap2);
+                free(tmp);
+            } else {
+                errno = ENOMEM; /* ret stays -1: reported below as a failure */
+            }
         }
         /* this will bump ret to > 0 */
     }
